@@ -16,7 +16,6 @@ func TestMain(m *testing.M) { hx.Main(m) }
 var (
 	one    = big.NewInt(1)
 	two64  = new(big.Int).Lsh(one, 64)
-	two255 = new(big.Int).Lsh(one, 255)
 )
 
 func bu(x uint64) *big.Int { return new(big.Int).SetUint64(x) }
@@ -77,31 +76,3 @@ func fastSign(d *big.Int, h cipher.SHA256, i int) cipher.Sig {
 	return sig
 }
 
-// sigValid is the reference judgement "valid and recoverable": r,s in [1,n-1], recovery id < 4,
-// s below 2^255 (values between n/2 and 2^255 are never generated here, see C10) and a point is recoverable.
-var sigMemo = map[[97]byte]bool{}
-
-func sigValid(sig cipher.Sig, h cipher.SHA256) bool {
-	var key [97]byte
-	copy(key[:65], sig[:])
-	copy(key[65:], h[:])
-	if v, ok := sigMemo[key]; ok {
-		return v
-	}
-	v := sigValidSlow(sig, h)
-	if len(sigMemo) > 200000 {
-		sigMemo = map[[97]byte]bool{}
-	}
-	sigMemo[key] = v
-	return v
-}
-
-func sigValidSlow(sig cipher.Sig, h cipher.SHA256) bool {
-	r := new(big.Int).SetBytes(sig[0:32])
-	s := new(big.Int).SetBytes(sig[32:64])
-	if sig[64] >= 4 || s.Cmp(two255) >= 0 {
-		return false
-	}
-	_, ok := curve.Recover(new(big.Int).SetBytes(h[:]), r, s, int(sig[64]))
-	return ok
-}
